@@ -188,11 +188,8 @@ fn sparse_union_case(lg_a: u8, lg_b: u8, lg_u: u8, home_a: u32, home_b: u32, can
     let lg2 = if lg_b < lg1 { lg_b } else { lg1 };
     let (x, y) = (fold_rc(ca, lg2), fold_rc(cb, lg2));
     check_accumulator(&u, lg2, x, y);
-    if can_collide {
-        kani::cover!(x == y); // the two inputs are equal after folding
-    } else {
-        assert!(x != y);
-    }
+    kani::cover!(!can_collide || x == y); // the two inputs are equal after folding
+    assert!(can_collide || x != y);
     kani::cover!(x != y);
     core::mem::forget((a, b, u));
 }
@@ -450,8 +447,8 @@ fn to_sketch_case(base: [u64; 16], expect_offset: u8) {
 }
 
 //@ props: C06 C17
-//@ tier: quick
-//@ timeout: 1800
+//@ tier: thorough
+//@ timeout: 7200
 //@ functions: cpc::union::CpcUnion::to_sketch
 //@ functions: cpc::pair_table::PairTable::maybe_insert
 //@ functions: cpc::sketch::CpcSketch::build_bit_matrix
@@ -471,8 +468,8 @@ fn c06_to_sketch_from_matrix_offset0() {
 }
 
 //@ props: C06 C17
-//@ tier: quick
-//@ timeout: 1800
+//@ tier: thorough
+//@ timeout: 7200
 //@ functions: cpc::union::CpcUnion::to_sketch
 //@ functions: cpc::pair_table::PairTable::maybe_insert
 //@ functions: cpc::sketch::CpcSketch::build_bit_matrix
